@@ -124,9 +124,93 @@ def run_batch(args):
         if run < 200:
             agg['digests'].append((run, s['digest']))
         if s['violations']:
-            agg['violation'] = {'run': run, 'seed': seed, 'case': to_jsonable(case), 'violations': s['violations']}
+            agg['violation'] = {'run': run, 'seed': seed, 'case': to_jsonable(case), 'violations': s['violations'],
+                                'batch_start': start}
             break
     return agg
+
+
+def run_batch_isolated(args):
+    """Every batch runs in a fresh fork of the (world-free) pool worker, so the library state a world meets is the
+    state left by the earlier worlds of *its own batch* only: process history is part of the explored space (state
+    leaking between TdmsFile / TdmsWriter instances shows up) and stays a function of the seed, not of which worker
+    picked the batch up."""
+    ctx = multiprocessing.get_context('fork')
+    rx, tx = ctx.Pipe(duplex=False)
+    proc = ctx.Process(target=_batch_child, args=(tx, args))
+    proc.start()
+    tx.close()
+    try:
+        r = rx.recv()
+    except EOFError:
+        r = None
+    proc.join()
+    if r is None:
+        return {'harness_error': 'batch process for runs %d.. died or timed out (exit code %s)' % (args[3], proc.exitcode),
+                'start': args[3]}
+    return r
+
+
+def _batch_child(tx, args):
+    try:
+        r = run_batch(args)
+    except BaseException:
+        r = {'harness_error': 'batch %d:\n%s' % (args[3], traceback.format_exc()), 'start': args[3]}
+    try:
+        tx.send(r)
+        tx.close()
+    finally:
+        os._exit(0)
+
+
+class _Light(object):
+    def __init__(self, violations, dig):
+        self.violations = violations
+        self.dig = dig
+
+
+def fork_exec(profile, known, history, case, timeout=300):
+    """Executes `history` (cases, results ignored) and then `case` in a fresh fork of this process, which has not
+    executed any world: the clean-state semantics a replay in a new interpreter has, at the price of a fork."""
+    import pickle
+    from .compare import V
+    r, w = os.pipe()
+    pid = os.fork()
+    if pid == 0:
+        try:
+            os.close(r)
+            faulthandler.dump_traceback_later(timeout, exit=True)
+            try:
+                for h in history:
+                    _exec_checked(profile, h, known)
+                res = _exec_checked(profile, case, known)
+                out = ('ok', [v.as_dict() for v in res.violations], res.digest())
+            except BaseException:
+                out = ('err', traceback.format_exc())
+            with os.fdopen(w, 'wb') as f:
+                pickle.dump(out, f)
+        finally:
+            os._exit(0)
+    os.close(w)
+    with os.fdopen(r, 'rb') as f:
+        data = f.read()
+    os.waitpid(pid, 0)
+    if not data:
+        raise RuntimeError('forked execution died or timed out')
+    out = pickle.loads(data)
+    if out[0] == 'err':
+        raise RuntimeError(out[1])
+    vs = []
+    for d in out[1]:
+        v = V(d['tag'], d['detail'], **d['sig'])
+        vs.append(v)
+    return _Light(vs, out[2])
+
+
+def regenerate(profile, prop, tier, base_seed, run):
+    rng = random.Random(world_seed(base_seed, prop, tier, run))
+    gi = getattr(profile, 'generate_indexed', None)
+    return gi(run, rng, tier) if gi is not None else profile.generate(rng, tier)
 
 
 def write_replay(prop, tier, base_seed, run, seed, case, violations, extra=None):
@@ -147,6 +231,9 @@ def replay(prop, path, quiet=False):
     with open(path) as f:
         doc = json.load(f)
     case = from_jsonable(doc['case'])
+    for h in doc.get('history', []):
+        # worlds handled earlier in the same process: the violation needs the state they leave behind
+        _exec_checked(profile, from_jsonable(h), [])
     res = _exec_checked(profile, case, [])
     tags = [v.tag for v in res.violations]
     if not quiet:
@@ -241,7 +328,7 @@ def main(argv=None):
                     except StopIteration:
                         done_submitting = True
                         return
-                    pending[ex.submit(run_batch, t)] = t
+                    pending[ex.submit(run_batch_isolated, t)] = t
 
             submit_more()
             found = False
@@ -322,8 +409,39 @@ def main(argv=None):
         known = findings_mod.load(prop)
         from . import shrink
 
+        history = []
+        hist_note = None
+
         def ex_(c):
-            return _exec_checked(profile, c, known)
+            # every execution after detection happens in a fresh fork of this (world-free) process
+            return fork_exec(profile, known, history, c)
+        if not any(v.tag == tag for v in ex_(case).violations):
+            # the violation does not show when the world is handled alone: it needs the library state left behind by the
+            # worlds handled earlier in the same process (its batch); find the shortest such history
+            full = [regenerate(profile, prop, tier, base_seed, r_) for r_ in range(viol['batch_start'], viol['run'])]
+            history = full
+            if not full or not any(v.tag == tag for v in ex_(case).violations):
+                print('HARNESS-ERROR property=%s the violation of run %d (%s) reproduces neither alone nor after the %d '
+                      'earlier worlds of its batch' % (prop, viol['run'], tag, len(full)))
+                return 2
+            for k in range(1, len(full) + 1):
+                history = full[-k:]
+                if any(v.tag == tag for v in ex_(case).violations):
+                    break
+            changed = True
+            while changed and len(history) > 1:
+                changed = False
+                for i in range(len(history)):
+                    cand = history[:i] + history[i + 1:]
+                    keep = history
+                    history = cand
+                    if any(v.tag == tag for v in ex_(case).violations):
+                        changed = True
+                        break
+                    history = keep
+            hist_note = ('the violation needs process history: it does not occur when this world is handled in a fresh '
+                         'process, it occurs after %d earlier world(s) were handled in the same process' % len(history))
+            print('note: ' + hist_note)
         size0 = shrink.case_size(case)
         narrow = getattr(profile, 'narrow', None)
         if narrow is not None:
@@ -339,11 +457,28 @@ def main(argv=None):
         except Exception:
             small, execs = case, 0
             print('note: minimiser failed:\n' + traceback.format_exc())
+        if history:
+            # the history worlds are shrunk too (same candidates, the final world fixed)
+            t_h = time.time()
+            for i in range(len(history)):
+                def ex_h(c, i=i):
+                    return fork_exec(profile, known, history[:i] + [c] + history[i + 1:], small)
+                try:
+                    history[i], e2 = shrink.minimise(history[i], ex_h, profile.shrink_candidates, tag,
+                                                     budget_s=max(5.0, float(os.environ.get('VERIF_SHRINK_S', '120')) / 2
+                                                                  - (time.time() - t_h)))
+                    execs += e2
+                except Exception:
+                    print('note: history minimiser failed:\n' + traceback.format_exc())
         r2 = ex_(small)
         vs = [v.as_dict() for v in r2.violations] or viol['violations']
         minim = {'original_size': size0, 'minimised_size': shrink.case_size(small), 'executions': execs}
-        replay_path = write_replay(prop, tier, base_seed, viol['run'], viol['seed'], small, vs,
-                                   {'minimisation': minim, 'original_case': viol['case']})
+        extra_doc = {'minimisation': minim, 'original_case': viol['case']}
+        if history:
+            extra_doc['history'] = [to_jsonable(h) for h in history]
+            extra_doc['history_note'] = hist_note
+            minim['history_worlds'] = len(history)
+        replay_path = write_replay(prop, tier, base_seed, viol['run'], viol['seed'], small, vs, extra_doc)
         # must reproduce in a fresh interpreter
         p = subprocess.run([sys.executable, os.path.join(VERIF_DIR, 'check'), prop, '--replay', replay_path],
                            cwd=VERIF_DIR, capture_output=True, text=True,
